@@ -26,6 +26,7 @@ func extractC14(c *ctxT) {
 	// ---- Execute writes -----------------------------------------------------------------------------------
 	type wr struct{ op, store, key, args string }
 	var writes []wr
+	var idxValues []string
 	if fd := c.findFunc(c14Keeper, "DistrStakingMigrate", "Execute"); fd != nil && fd.Body != nil {
 		// assignments `x := pkg.GetXxx(...)` / `x := storetypes.KVStorePrefixIterator(store, pkg.GetXxx(..))`
 		type asg struct {
@@ -114,6 +115,14 @@ func extractC14(c *ctxT) {
 				key = "?" + c.src(ce.Args[0])
 			}
 			writes = append(writes, wr{se.Sel.Name, st.Name, key, args})
+			if key == "GetUnbondingIndexKey" && len(ce.Args) == 2 {
+				// the value the unbonding-id index is pointed at: a record key constructor with its arguments
+				if vk, va, ok := keyOf(ce.Args[1]); ok {
+					idxValues = append(idxValues, vk+"("+va+")")
+				} else {
+					idxValues = append(idxValues, "?"+c.src(ce.Args[1]))
+				}
+			}
 			return true
 		})
 	}
@@ -149,6 +158,9 @@ func extractC14(c *ctxT) {
 	}
 	sb.WriteString("def executeDeleteKeys : List String := " + q(dels) + "\n")
 	sb.WriteString("def executeSetKeys : List String := " + q(sets) + "\n\n")
+	sb.WriteString("/-- the record keys the unbonding-id index (0x38) entries are pointed at, in source order -/\n")
+	sb.WriteString("def unbondingIndexValues : List String := " + q(idxValues) + "\n\n")
+	c.facts["C14.unbondingIndexValues"] = idxValues
 	c.facts["C14.executeDeleteKeys"] = dels
 	c.facts["C14.executeSetKeys"] = sets
 
@@ -184,6 +196,7 @@ func extractC14(c *ctxT) {
 
 	// ---- handler order -------------------------------------------------------------------------------------
 	var order []string
+	var recChecks [][2]string // (predicate called, which address)
 	if fd := c.findFunc(c14Keeper, "Keeper", "MigrateAccount"); fd != nil && fd.Body != nil {
 		for _, st := range fd.Body.List {
 			src := c.src(st)
@@ -194,12 +207,22 @@ func extractC14(c *ctxT) {
 					cond = c.src(s.Init) + ";" + cond
 				}
 				returnsErr := strings.Contains(c.src(s.Body), "return nil,")
-				switch {
-				case strings.Contains(cond, "HasMigrateRecord(ctx, fromAddress)") && returnsErr:
-					order = append(order, "check-record-from")
-				case strings.Contains(cond, "HasMigrateRecord(ctx, toAddress") && returnsErr:
-					order = append(order, "check-record-to")
+				// `if k.<Pred>(ctx, fromAddress|toAddress…) { return nil, … "has been migrated" … }`
+				if ce, ok := s.Cond.(*ast.CallExpr); ok && s.Init == nil && returnsErr && len(ce.Args) == 2 &&
+					strings.Contains(c.src(s.Body), "has been migrated") {
+					if se, ok := ce.Fun.(*ast.SelectorExpr); ok {
+						arg := c.src(ce.Args[1])
+						switch {
+						case strings.HasPrefix(arg, "fromAddress"):
+							order = append(order, "check-record-from")
+							recChecks = append(recChecks, [2]string{se.Sel.Name, "from"})
+						case strings.HasPrefix(arg, "toAddress"):
+							order = append(order, "check-record-to")
+							recChecks = append(recChecks, [2]string{se.Sel.Name, "to"})
+						}
+					}
 				}
+				_ = cond
 			case *ast.AssignStmt:
 				if strings.Contains(src, "checkMigrateFrom(ctx, fromAddress)") {
 					order = append(order, "check-from-account")
@@ -226,6 +249,109 @@ func extractC14(c *ctxT) {
 	sb.WriteString("/-- recognised statements of `Keeper.MigrateAccount`, in source order -/\n")
 	sb.WriteString("def handlerOrder : List String := " + q(order) + "\n\n")
 	c.facts["C14.handlerOrder"] = order
+
+	// ---- migration records: which predicate guards which address, which key each predicate reads, which keys are written
+	pair := func(xs [][2]string) string {
+		var o []string
+		for _, x := range xs {
+			o = append(o, "("+leanStr(x[0])+", "+leanStr(x[1])+")")
+		}
+		return leanList(o)
+	}
+	var preds [][2]string // (predicate, key constructor its store.Has reads)
+	for _, fd := range c.funcDecls(c14Keeper) {
+		if recvName(fd) != "Keeper" || fd.Body == nil || !strings.HasPrefix(fd.Name.Name, "Has") {
+			continue
+		}
+		ast.Inspect(fd.Body, func(n ast.Node) bool {
+			ce, ok := n.(*ast.CallExpr)
+			if !ok || len(ce.Args) != 1 {
+				return true
+			}
+			if se, ok := ce.Fun.(*ast.SelectorExpr); ok && se.Sel.Name == "Has" {
+				if kc, ok := ce.Args[0].(*ast.CallExpr); ok {
+					if ks, ok := kc.Fun.(*ast.SelectorExpr); ok {
+						preds = append(preds, [2]string{fd.Name.Name, ks.Sel.Name})
+					}
+				}
+			}
+			return true
+		})
+	}
+	sort.Slice(preds, func(i, j int) bool { return preds[i][0] < preds[j][0] })
+	var recWrites [][2]string // (key constructor, argument) of every store.Set in SetMigrateRecord
+	if fd := c.findFunc(c14Keeper, "Keeper", "SetMigrateRecord"); fd != nil && fd.Body != nil {
+		ast.Inspect(fd.Body, func(n ast.Node) bool {
+			ce, ok := n.(*ast.CallExpr)
+			if !ok || len(ce.Args) != 2 {
+				return true
+			}
+			if se, ok := ce.Fun.(*ast.SelectorExpr); ok && se.Sel.Name == "Set" {
+				if kc, ok := ce.Args[0].(*ast.CallExpr); ok && len(kc.Args) == 1 {
+					if ks, ok := kc.Fun.(*ast.SelectorExpr); ok {
+						arg := c.src(kc.Args[0])
+						who := "?" + arg
+						switch {
+						case strings.HasPrefix(arg, "from"):
+							who = "from"
+						case strings.HasPrefix(arg, "to"):
+							who = "to"
+						}
+						recWrites = append(recWrites, [2]string{ks.Sel.Name, who})
+					}
+				}
+			}
+			return true
+		})
+	}
+	sb.WriteString("/-- the already-migrated guards of `Keeper.MigrateAccount`: (predicate called, address it is applied to), in source order -/\n")
+	sb.WriteString("def recordChecks : List (String × String) := " + pair(recChecks) + "\n")
+	sb.WriteString("/-- every `Has…` method of the migrate keeper with the key constructor its `store.Has` reads -/\n")
+	sb.WriteString("def recordPredicates : List (String × String) := " + pair(preds) + "\n")
+	sb.WriteString("/-- every `store.Set` of `Keeper.SetMigrateRecord`: (key constructor, address it is keyed by) -/\n")
+	sb.WriteString("def recordWrites : List (String × String) := " + pair(recWrites) + "\n\n")
+	c.facts["C14.recordChecks"] = recChecks
+	c.facts["C14.recordPredicates"] = preds
+	c.facts["C14.recordWrites"] = recWrites
+
+	// ---- bank handler: which keeper call yields the amount that is sent, and the SendCoins arguments
+	bankCall, bankSend := "?", "?"
+	if fd := c.findFunc(c14Keeper, "BankMigrate", "Execute"); fd != nil && fd.Body != nil {
+		amountVar := ""
+		ast.Inspect(fd.Body, func(n ast.Node) bool {
+			switch x := n.(type) {
+			case *ast.AssignStmt:
+				if len(x.Lhs) == 1 && len(x.Rhs) == 1 {
+					if ce, ok := x.Rhs[0].(*ast.CallExpr); ok {
+						if se, ok := ce.Fun.(*ast.SelectorExpr); ok && strings.HasSuffix(c.src(se.X), "bankKeeper") {
+							if id, ok := x.Lhs[0].(*ast.Ident); ok {
+								amountVar = id.Name
+								var as []string
+								for _, a := range ce.Args[1:] {
+									as = append(as, c.src(a))
+								}
+								bankCall = se.Sel.Name + "(" + strings.Join(as, ",") + ")"
+							}
+						}
+					}
+				}
+			case *ast.CallExpr:
+				if se, ok := x.Fun.(*ast.SelectorExpr); ok && se.Sel.Name == "SendCoins" && len(x.Args) == 4 {
+					amt := c.src(x.Args[3])
+					if amt == amountVar {
+						amt = "amount"
+					}
+					bankSend = c.src(x.Args[1]) + "," + c.src(x.Args[2]) + "," + amt
+				}
+			}
+			return true
+		})
+	}
+	sb.WriteString("/-- the bank keeper call whose result `BankMigrate.Execute` sends, and the (sender, receiver, amount) of its `SendCoins` -/\n")
+	sb.WriteString("def bankAmountCall : String := " + leanStr(bankCall) + "\n")
+	sb.WriteString("def bankSendArgs : String := " + leanStr(bankSend) + "\n\n")
+	c.facts["C14.bankAmountCall"] = bankCall
+	c.facts["C14.bankSendArgs"] = bankSend
 
 	// ---- signature -----------------------------------------------------------------------------------------
 	var fields []string
@@ -315,6 +441,148 @@ func extractC14(c *ctxT) {
 	sb.WriteString("def signaturePrefix : String := " + leanStr(prefix) + "\n\n")
 	c.facts["C14.signedFields"] = fields
 	c.facts["C14.sigComparedWith"] = cmp
+
+
+	// ---- gov callbacks: which involvement each callback refuses, in source order ----------------------------
+	cbChecks := func(name string) []string {
+		var out []string
+		fd := c.findFunc(c14Keeper, "GovMigrate", name)
+		if fd == nil || fd.Body == nil {
+			return out
+		}
+		var lit *ast.FuncLit
+		ast.Inspect(fd.Body, func(n ast.Node) bool {
+			if fl, ok := n.(*ast.FuncLit); ok && lit == nil {
+				lit = fl
+				return false
+			}
+			return true
+		})
+		if lit == nil {
+			return out
+		}
+		who := func(arg string) string {
+			switch {
+			case arg == "from" || strings.HasPrefix(arg, "from."):
+				return "from"
+			case arg == "to" || strings.HasPrefix(arg, "to.") || strings.Contains(arg, "(to."):
+				return "to"
+			}
+			return "?" + arg
+		}
+		returnsErr := func(b *ast.BlockStmt) bool {
+			for _, st := range b.List {
+				if rs, ok := st.(*ast.ReturnStmt); ok && len(rs.Results) == 2 && c.src(rs.Results[1]) != "nil" {
+					return true
+				}
+			}
+			return false
+		}
+		stmts := lit.Body.List
+		for i, st := range stmts {
+			switch x := st.(type) {
+			case *ast.IfStmt:
+				// if A.Equals(sdk.AccAddress(proposer)) { return false, err }
+				if ce, ok := x.Cond.(*ast.CallExpr); ok && returnsErr(x.Body) {
+					if se, ok := ce.Fun.(*ast.SelectorExpr); ok && se.Sel.Name == "Equals" && len(ce.Args) == 1 &&
+						strings.Contains(c.src(ce.Args[0]), "proposer") {
+						out = append(out, "proposer-"+who(c.src(se.X)))
+					}
+				}
+			case *ast.AssignStmt:
+				if len(x.Rhs) != 1 || len(x.Lhs) != 2 {
+					continue
+				}
+				ce, ok := x.Rhs[0].(*ast.CallExpr)
+				if !ok {
+					continue
+				}
+				// the following statements must return the error / refuse on the flag
+				refusedOn := func(v string) bool {
+					for _, nx := range stmts[i+1:] {
+						if is, ok := nx.(*ast.IfStmt); ok && c.src(is.Cond) == v && returnsErr(is.Body) {
+							return true
+						}
+						if as, ok := nx.(*ast.AssignStmt); ok && len(as.Lhs) > 0 && c.src(as.Lhs[0]) == v {
+							return false // overwritten before it was looked at
+						}
+					}
+					return false
+				}
+				if se, ok := ce.Fun.(*ast.SelectorExpr); ok && (se.Sel.Name == "HasDeposit" || se.Sel.Name == "HasVote") && len(ce.Args) == 3 &&
+					c.src(ce.Args[1]) == "proposal.Id" {
+					kind := "deposit-"
+					if se.Sel.Name == "HasVote" {
+						kind = "vote-"
+					}
+					if refusedOn(c.src(x.Lhs[0])) {
+						out = append(out, kind+who(c.src(ce.Args[2])))
+					}
+					continue
+				}
+				// b, err := m.DepositPeriodCallback(ctx, from, to)(proposal); if err != nil { return b, err }
+				if inner, ok := ce.Fun.(*ast.CallExpr); ok && len(ce.Args) == 1 && c.src(ce.Args[0]) == "proposal" {
+					if se, ok := inner.Fun.(*ast.SelectorExpr); ok && se.Sel.Name == "DepositPeriodCallback" &&
+						len(inner.Args) == 3 && c.src(inner.Args[1]) == "from" && c.src(inner.Args[2]) == "to" {
+						if i+1 < len(stmts) {
+							if is, ok := stmts[i+1].(*ast.IfStmt); ok && c.src(is.Cond) == "err != nil" && returnsErr(is.Body) {
+								out = append(out, "deposit-callback")
+							}
+						}
+					}
+				}
+			}
+		}
+		return out
+	}
+	depChecks, voteChecks := cbChecks("DepositPeriodCallback"), cbChecks("VotePeriodCallback")
+	sb.WriteString("/-- what `DepositPeriodCallback` / `VotePeriodCallback` refuse, in source order (`deposit-callback` = the vote callback first runs the deposit callback) -/\n")
+	sb.WriteString("def govDepositChecks : List String := " + q(depChecks) + "\n")
+	sb.WriteString("def govVoteChecks : List String := " + q(voteChecks) + "\n\n")
+	c.facts["C14.govDepositChecks"] = depChecks
+	c.facts["C14.govVoteChecks"] = voteChecks
+
+	// ---- the per-entry queue rewrite loops of Execute -----------------------------------------------------
+	// (entries ranged over, branch statements inside the entry loop, the condition under which a queue element is renamed,
+	//  where the rewrite flag is declared)
+	var qloops [][4]string
+	if fd := c.findFunc(c14Keeper, "DistrStakingMigrate", "Execute"); fd != nil && fd.Body != nil {
+		ast.Inspect(fd.Body, func(n ast.Node) bool {
+			rs, ok := n.(*ast.RangeStmt)
+			if !ok || !strings.HasSuffix(c.src(rs.X), ".Entries") {
+				return true
+			}
+			var branches, conds []string
+			flag := "outside"
+			ast.Inspect(rs.Body, func(m ast.Node) bool {
+				switch y := m.(type) {
+				case *ast.BranchStmt:
+					branches = append(branches, y.Tok.String())
+				case *ast.DeclStmt:
+					if strings.Contains(c.src(y), "Flag bool") {
+						flag = "inside"
+					}
+				case *ast.IfStmt:
+					if strings.Contains(c.src(y.Body), ".DelegatorAddress =") {
+						conds = append(conds, c.src(y.Cond))
+					}
+				}
+				return true
+			})
+			qloops = append(qloops, [4]string{c.src(rs.X), strings.Join(branches, ","), strings.Join(conds, " ;; "), flag})
+			return true
+		})
+	}
+	sb.WriteString("/-- the entry loops of `Execute`: (entries, branch statements in the loop, rename condition, rewrite flag declared) -/\n")
+	sb.WriteString("def queueLoops : List (String × String × String × String) := [")
+	for i, l := range qloops {
+		if i > 0 {
+			sb.WriteString(", ")
+		}
+		sb.WriteString("(" + leanStr(l[0]) + ", " + leanStr(l[1]) + ", " + leanStr(l[2]) + ", " + leanStr(l[3]) + ")")
+	}
+	sb.WriteString("]\n\n")
+	c.facts["C14.queueLoops"] = qloops
 
 	// ---- staking Validate checks ---------------------------------------------------------------------------
 	var checks []string
